@@ -6,6 +6,8 @@ import (
 	"go/token"
 	"go/types"
 	"os"
+	"regexp"
+	"sort"
 	"strings"
 
 	"golang.org/x/tools/go/packages"
@@ -36,16 +38,150 @@ func hasArith(e ast.Expr) bool {
 	return found
 }
 
+// callWithConstArg: a call one of whose arguments is a constant or a negated value (slotAfter(-DISPARITY)): the
+// sign and the constant are part of the formula.
+func callWithConstArg(info *types.Info, e ast.Expr) bool {
+	call, ok := ast.Unparen(e).(*ast.CallExpr)
+	if !ok || isConversion(info, call) {
+		return false
+	}
+	for _, a := range call.Args {
+		if tv, ok := info.Types[a]; ok && tv.Value != nil {
+			if b, ok := tv.Type.Underlying().(*types.Basic); ok && b.Info()&types.IsNumeric != 0 {
+				return true
+			}
+		}
+		if ue, ok := ast.Unparen(a).(*ast.UnaryExpr); ok && ue.Op == token.SUB {
+			return true
+		}
+	}
+	return false
+}
+
+func hasBoolOp(e ast.Expr) bool {
+	found := false
+	ast.Inspect(e, func(n ast.Node) bool {
+		if be, ok := n.(*ast.BinaryExpr); ok && (be.Op == token.LAND || be.Op == token.LOR) {
+			found = true
+		}
+		return !found
+	})
+	return found
+}
+
+// boolForm: canonical text of a boolean expression: and(...)/or(...) with sorted operands, not(...), comparisons as
+// oriented polynomials, everything else as (possibly type-named) atoms.
+func boolForm(info *types.Info, e ast.Expr) string {
+	e = ast.Unparen(e)
+	switch x := e.(type) {
+	case *ast.BinaryExpr:
+		switch x.Op {
+		case token.LAND, token.LOR:
+			parts := flattenBool(x, x.Op)
+			var fs []string
+			for _, p := range parts {
+				fs = append(fs, boolForm(info, p))
+			}
+			sort.Strings(fs)
+			name := "and"
+			if x.Op == token.LOR {
+				name = "or"
+			}
+			return name + "(" + strings.Join(fs, "; ") + ")"
+		case token.EQL, token.NEQ, token.LSS, token.LEQ, token.GTR, token.GEQ:
+			l, ok1 := exprPoly(info, x.X, nil, nil, 0)
+			r, ok2 := exprPoly(info, x.Y, nil, nil, 0)
+			if ok1 && ok2 {
+				return "[" + orient(polyAdd(l, r, -1), x.Op) + "]"
+			}
+			a, b := strings.ReplaceAll(types.ExprString(x.X), " ", ""), strings.ReplaceAll(types.ExprString(x.Y), " ", "")
+			if polyAbstract {
+				a, b = absName(info, x.X), absName(info, x.Y)
+			}
+			if (x.Op == token.EQL || x.Op == token.NEQ) && b < a {
+				a, b = b, a
+			}
+			return "[" + a + x.Op.String() + b + "]"
+		}
+	case *ast.UnaryExpr:
+		if x.Op == token.NOT {
+			return "not(" + boolForm(info, x.X) + ")"
+		}
+	}
+	if p, ok := exprPoly(info, e, nil, nil, 0); ok {
+		return p.String()
+	}
+	if polyAbstract {
+		return absName(info, e)
+	}
+	return strings.ReplaceAll(types.ExprString(e), " ", "")
+}
+
+var formulaDecls = map[string]cmpDecl{}
+
+var identTokRe = regexp.MustCompile(`[A-Za-z_][A-Za-z0-9_]*`)
+
+// stillDeclared: identifiers that the reviewed form mentions, today's form does not, and that are still declared in
+// the function (as a local, parameter or named result): the value was replaced, not renamed.
+func stillDeclared(fn string, want, got []string) []string {
+	d, ok := formulaDecls[fn]
+	if !ok {
+		return nil
+	}
+	have := map[string]bool{}
+	for _, g := range got {
+		for _, t := range identTokRe.FindAllString(g, -1) {
+			have[t] = true
+		}
+	}
+	var out []string
+	seen := map[string]bool{}
+	for _, w := range want {
+		for _, t := range identTokRe.FindAllString(w, -1) {
+			if have[t] || seen[t] {
+				continue
+			}
+			seen[t] = true
+			decl := false
+			ast.Inspect(d.fd, func(n ast.Node) bool {
+				if id, ok := n.(*ast.Ident); ok && id.Name == t && d.pk.TypesInfo.Defs[id] != nil {
+					if _, isVar := d.pk.TypesInfo.Defs[id].(*types.Var); isVar {
+						decl = true
+					}
+				}
+				return !decl
+			})
+			if decl {
+				out = append(out, t)
+			}
+		}
+	}
+	return out
+}
+
 func collectFormulas(p *Prog) map[string][]formulaSite {
 	out := map[string][]formulaSite{}
+	formulaDecls = map[string]cmpDecl{}
 	p.funcDecls(func(pk *packages.Package, fd *ast.FuncDecl) {
 		if fd.Body == nil || !strings.Contains(pk.PkgPath, "/eth2/") {
 			return
 		}
 		info := pk.TypesInfo
 		fn := pkgShort(pk.Types) + "." + funcName(fd)
+		formulaDecls[fn] = cmpDecl{pk, fd}
 		add := func(target string, tok token.Token, rhs ast.Expr, pos token.Pos) {
-			if !hasArith(rhs) {
+			if hasBoolOp(rhs) {
+				if b, ok := info.TypeOf(rhs).Underlying().(*types.Basic); ok && b.Kind() == types.Bool {
+					named := boolForm(info, rhs)
+					polyAbstract = true
+					polyAbsSeen = nil
+					abs := boolForm(info, rhs)
+					polyAbstract = false
+					out[fn] = append(out[fn], formulaSite{fn, target, tok, pos, named, abs, types.ExprString(rhs)})
+					return
+				}
+			}
+			if !hasArith(rhs) && !callWithConstArg(info, rhs) {
 				// a bare value is a formula only for accumulators (x += v)
 				if tok == token.ASSIGN || tok == token.DEFINE {
 					return
@@ -84,7 +220,7 @@ func collectFormulas(p *Prog) map[string][]formulaSite {
 				}
 			case *ast.ReturnStmt:
 				for i, r := range x.Results {
-					if hasArith(r) {
+					if hasArith(r) || hasBoolOp(r) {
 						add(fmt.Sprintf("return#%d", i), token.ASSIGN, r, x.Pos())
 					}
 				}
@@ -193,7 +329,11 @@ func ruleFormulaSpec(c *Ctx) {
 		case sameMultiset(named, e.named):
 			c.ok(key, pos, "%s", e.spec)
 		case sameMultiset(abs, e.abs):
-			c.ok(key, pos, "%s (operands renamed)", e.spec)
+			if sw := stillDeclared(e.fn, e.named, named); len(sw) > 0 {
+				c.bad(key, pos, "%s computes %s as {%s}: the shape is the reviewed one but it no longer uses %v, which still exist(s) in the function — another value of the same type was put in its place (reviewed: {%s}; spec: %s)", e.fn, e.target, strings.Join(texts, " ; "), sw, strings.Join(e.named, " ; "), e.spec)
+			} else {
+				c.ok(key, pos, "%s (operands renamed)", e.spec)
+			}
 		default:
 			c.bad(key, pos, "%s computes %s as {%s}; in canonical form that is {%s}, the reviewed formula is {%s} — spec: %s", e.fn, e.target, strings.Join(texts, " ; "), strings.Join(named, " ; "), strings.Join(e.named, " ; "), e.spec)
 		}
